@@ -11,6 +11,9 @@ static SEQ: AtomicU64 = AtomicU64::new(0);
 /// last site seen per armed thread id (deadlock witness)
 static LAST: [AtomicU32; 16] = [const { AtomicU32::new(0) }; 16];
 static LAST_SEQ: [AtomicU64; 16] = [const { AtomicU64::new(0) }; 16];
+/// how many dispatcher-list lock acquisitions the armed thread currently holds (from the
+/// after-lock / unlocked hook pairs): wait-for information for the deadlock detector
+static HELD: [AtomicU32; 16] = [const { AtomicU32::new(0) }; 16];
 
 pub struct ThreadChaos {
     tid: usize,
@@ -37,6 +40,7 @@ pub fn uninstall() {
 /// Arm the current thread.
 pub fn arm(tid: usize, seed: u64, intensity: u32, park: bool) {
     LAST[tid % 16].store(0, Ordering::Relaxed);
+    HELD[tid % 16].store(0, Ordering::Relaxed);
     TL.with(|t| {
         *t.borrow_mut() = Some(ThreadChaos {
             tid: tid % 16,
@@ -54,6 +58,10 @@ pub fn disarm() -> Vec<(u64, u32)> {
 }
 pub fn seq() -> u64 {
     SEQ.load(Ordering::Relaxed)
+}
+/// number of dispatcher-lock acquisitions thread `tid` holds right now
+pub fn held_locks(tid: usize) -> u32 {
+    HELD[tid % 16].load(Ordering::Relaxed)
 }
 pub fn last_site(tid: usize) -> (u32, u64) {
     (
@@ -73,6 +81,19 @@ fn hook(site: u32) {
         let seq = SEQ.fetch_add(1, Ordering::Relaxed);
         LAST[c.tid].store(site, Ordering::Relaxed);
         LAST_SEQ[c.tid].store(seq, Ordering::Relaxed);
+        {
+            use tracing_core::verif::site::*;
+            match site {
+                REG_AFTER_READ | RD_AFTER_WRITE | RIC_AFTER_WRITE => {
+                    HELD[c.tid].fetch_add(1, Ordering::Relaxed);
+                }
+                REG_UNLOCKED | RD_UNLOCKED | RIC_UNLOCKED => {
+                    let h = HELD[c.tid].load(Ordering::Relaxed);
+                    HELD[c.tid].store(h.saturating_sub(1), Ordering::Relaxed);
+                }
+                _ => {}
+            }
+        }
         if c.log.len() < c.log_cap {
             c.log.push((seq, site));
         }
@@ -113,6 +134,9 @@ pub fn site_name(s: u32) -> &'static str {
         RD_BEFORE_WRITE => "newdisp.before_write",
         RD_AFTER_WRITE => "newdisp.after_write",
         RD_AFTER_PUSH => "newdisp.after_push",
+        REG_UNLOCKED => "reg.unlocked",
+        RD_UNLOCKED => "newdisp.unlocked",
+        RIC_UNLOCKED => "rebuild.unlocked",
         RIC_BEFORE_WRITE => "rebuild.before_write",
         RIC_AFTER_WRITE => "rebuild.after_write",
         RI_BEFORE_SET_MAX => "rebuild.before_set_max",
